@@ -592,3 +592,154 @@ def user_features(r, rec):
             else:
                 feats.append((f["tag"], v, 0, 0xFFFFFFFF))
     return ",".join(f"{tag_hex(t)}:{v}:{s}:{e}" for t, v, s, e in feats) or "-"
+
+
+# ------------------------------------------------------------------------------------------------
+# "malformed but accepted" tables: coverage and class-definition tables written in ways the OpenType text forbids and
+# no parser rejects — glyph arrays that are not sorted or hold duplicates, range records that are unsorted, overlap, repeat
+# or have start > end.  `Coverage::get` / `ClassDef::get` are binary searches: on such a table they still find SOME of the
+# entries, and whatever they find decides where a lookup acts.  Everything derived from the tables by another route (the
+# lookup digests built by `collect`, caches) has to agree with what the searches find.  The functions rewrite a fontbuild
+# recipe in place into "raw" coverages / class definitions of the same glyph sets (arrays parallel to a coverage keep
+# their length; which entry a glyph then gets is whatever the font says — the streams that use this compare the crate
+# with itself, never with a model of well-formed fonts).
+
+COV_KEYS = ("coverage", "mark_coverage", "base_coverage", "lig_coverage", "mark1_coverage", "mark2_coverage")
+COVLIST_KEYS = ("coverages", "input", "backtrack", "lookahead")
+CLASSDEF_KEYS = ("classdef", "backtrack_classdef", "input_classdef", "lookahead_classdef", "classdef1", "classdef2")
+MALFORMED_KINDS = ["array-shuffled", "array-rotated", "array-reversed", "array-duplicates", "array-one-descent",
+                   "ranges-shuffled", "ranges-overlapping", "ranges-inverted", "ranges-nested-duplicate", "well-formed"]
+
+
+def _runs(gs):
+    runs = []
+    for g in gs:
+        if runs and g == runs[-1][1] + 1:
+            runs[-1][1] = g
+        else:
+            runs.append([g, g])
+    return [tuple(x) for x in runs]
+
+
+def malformed_coverage(r, c, stats=None, maxgid=65535):
+    """the glyph set of recipe coverage `c` written in one of MALFORMED_KINDS (a recipe coverage with "raw": True)"""
+    gs = fontbuild.coverage_order(c)
+    if not gs or (isinstance(c, dict) and c.get("raw")):
+        return c
+    kind = r.choice(MALFORMED_KINDS)
+    if stats is not None:
+        stats[kind] = stats.get(kind, 0) + 1
+    arr = lambda xs: {"glyphs": list(xs), "format": 1, "raw": True}
+    rng = lambda rs: {"ranges": [tuple(x) for x in rs], "format": 2, "raw": True}
+    if kind == "well-formed":
+        return c
+    if kind == "array-shuffled":
+        return arr(r.shuffle(gs))
+    if kind == "array-rotated":
+        j = r.range(1, len(gs)) % len(gs)
+        return arr(gs[j:] + gs[:j])
+    if kind == "array-reversed":
+        return arr(gs[::-1])
+    if kind == "array-duplicates":
+        out = list(gs)
+        for _ in range(r.range(1, 3)):
+            out.insert(r.below(len(out) + 1), r.choice(gs))
+        return arr(out)
+    if kind == "array-one-descent":
+        out = list(gs)
+        g = out.pop(r.below(len(out)))
+        out.insert(r.choice([0, len(out), r.below(len(out) + 1)]), g)
+        return arr(out)
+    runs = _runs(gs)
+    if kind == "ranges-shuffled":
+        return rng(r.shuffle(runs))
+    if kind == "ranges-overlapping":
+        return rng([(a, min(maxgid, b + r.range(0, 3))) for a, b in runs] + ([(runs[0][0], runs[-1][1])] if r.chance(1, 3) else []))
+    if kind == "ranges-inverted":
+        out = list(runs)
+        for _ in range(r.range(1, 2)):
+            a, b = r.choice(gs), r.choice(gs)
+            a, b = max(a, b) + r.below(2), min(a, b)
+            out.insert(r.below(len(out) + 1), (a, b))          # start > end (or a one-glyph range when equal)
+        return rng(out)
+    out = list(runs)
+    a, b = r.choice(runs)
+    out.insert(r.below(len(out) + 1), (a, b))                  # the same range twice
+    c0 = r.range(a, b)
+    out.insert(r.below(len(out) + 1), (c0, r.range(c0, b)))     # a range inside another
+    return rng(out)
+
+
+def malformed_classdef(r, cd, stats=None):
+    """{gid: class} written as format-2 range records that are shuffled / overlap with different classes / are inverted, or
+    as a format-1 array; other class definitions are returned unchanged"""
+    if not isinstance(cd, dict) or not cd or any(k in cd for k in ("format", "map", "ranges", "classes")):
+        return cd
+    items = sorted((int(g), int(c)) for g, c in cd.items() if int(c) != 0)
+    if not items:
+        return cd
+    rs = []
+    for g, c in items:
+        if rs and rs[-1][1] + 1 == g and rs[-1][2] == c:
+            rs[-1][1] = g
+        else:
+            rs.append([g, g, c])
+    rs = [tuple(x) for x in rs]
+    kind = r.choice(["cd-shuffled", "cd-overlapping", "cd-inverted", "cd-format1", "cd-well-formed", "cd-well-formed"])
+    if stats is not None:
+        stats[kind] = stats.get(kind, 0) + 1
+    if kind == "cd-shuffled":
+        return {"format": 2, "ranges": r.shuffle(rs)}
+    if kind == "cd-overlapping":
+        return {"format": 2, "ranges": [(a, b + r.range(0, 3), c) for a, b, c in rs] + [(rs[0][0], rs[-1][1], r.range(1, 3))]}
+    if kind == "cd-inverted":
+        out = list(rs)
+        a, b, c = r.choice(rs)
+        out.insert(r.below(len(out) + 1), (b + 1, a, c))
+        return {"format": 2, "ranges": out}
+    if kind == "cd-format1":
+        return {"format": 1, "map": dict(items)}
+    return cd
+
+
+def malform_subtable(r, st, stats=None):
+    if not isinstance(st, dict):
+        return
+    if isinstance(st.get("extension"), dict):
+        malform_subtable(r, st["extension"], stats)
+        return
+    for k in COV_KEYS:
+        if st.get(k) is not None:
+            st[k] = malformed_coverage(r, st[k], stats)
+    for k in COVLIST_KEYS:
+        v = st.get(k)
+        if isinstance(v, list) and v and all(isinstance(e, (list, tuple, dict)) for e in v):
+            st[k] = [malformed_coverage(r, e, stats) for e in v]
+    for k in CLASSDEF_KEYS:
+        if st.get(k) is not None:
+            st[k] = malformed_classdef(r, st[k], stats)
+
+
+def malform_recipe(r, rec, stats=None, extension=(1, 5)):
+    """rewrites every coverage / class definition of the recipe's GSUB, GPOS and GDEF (see above); a share of the lookups is
+    wrapped into extension lookups (GSUB type 7 / GPOS type 9)"""
+    for key, ext in (("gsub", 7), ("gpos", 9)):
+        t = rec.get(key)
+        if not t:
+            continue
+        for lk in t["lookups"]:
+            for st in lk["subtables"]:
+                malform_subtable(r, st, stats)
+            if lk["type"] != ext and r.chance(*extension):
+                lk["subtables"] = [{"extension": st, "ext_type": lk["type"]} for st in lk["subtables"]]
+                lk["type"] = ext
+                if stats is not None:
+                    stats["extension-lookup"] = stats.get("extension-lookup", 0) + 1
+    gd = rec.get("gdef")
+    if gd:
+        if gd.get("mark_sets"):
+            gd["mark_sets"] = [malformed_coverage(r, c, stats) for c in gd["mark_sets"]]
+        for k in ("classes", "mark_attach"):
+            if gd.get(k):
+                gd[k] = malformed_classdef(r, gd[k], stats)
+    return rec
